@@ -3,7 +3,7 @@ from lib import *
 import json as _json
 
 PROP = "C02"
-LEVEL = "partial"
+LEVEL = "proof"
 LEVEL_TEXT = "partial"
 LEVEL_NOTE = ("proof for the three modelled readers (single Newick via the C01 model, the multi-Newick splitter + reader loop, "
               "the Nexus lexer/parser) and for the structural clade conversions; PhyloXML / Nextstrain text decoding is "
